@@ -31,7 +31,7 @@ COMPONENTS = {
     "stub": ["asyncio.wait_for of CPython 3.8-3.11 (transcribed, sim/legacy_asyncio.py) on ~25 % of the asyncio-driver runs", "event-loop selector and clock (VirtualLoop)", "os/glob/random in dali.driver.hid",
              "serial_asyncio in dali.driver.serial", "gateway firmware, DALI bus, bus units"],
 }
-PROBES = ["progress-callback-raised", "parallel-sends-under-one-lock", "send-cancelled", "generator-misbehaves-on-close", "units-overlapped", "seq-raised", "seq-cancelled", "cancel-while-holding-lock",
+PROBES = ["send-retried-after-reconnection", "progress-callback-raised", "parallel-sends-under-one-lock", "send-cancelled", "generator-misbehaves-on-close", "units-overlapped", "seq-raised", "seq-cancelled", "cancel-while-holding-lock",
           "lock-contended", "dt-command-sent", "locked-unit", "start-tie"]
 
 
@@ -44,12 +44,24 @@ def gen_plan(seed, tier="quick"):
             "callers": plans.gen_callers(r, driver, ncallers, 3 if tier == "quick" else 4,
                                          cancel_sends=True, parallel=0.06, unsupported=0.04, connect_again=0.04),
             "deadline_s": 600}
+    x = plans.rng_for(seed, PROP + "-retry")
+    if driver in ("tridonic", "hasseb") and x.random() < 0.1:
+        # the one gateway event that makes send() itself put frames on the wire a second time: a write
+        # finds the device gone, it comes back, the command is retried (exceptions off) - prefix included
+        plan["callers"] = [{"id": c["id"], "start_us": c["start_us"],
+                            "ops": [plans.gen_send_op(x, driver, [k for k in plans.driver_cats(driver) if k.startswith("dt_")]
+                                                      if x.random() < 0.7 else None) for _ in range(x.randrange(1, 4))]}
+                           for c in plan["callers"][:x.randrange(1, 4)]]
+        plan["write_fault_at"] = [(2 if driver == "tridonic" else 0) + x.randrange(0, 6)]
+        plan["knobs"]["exceptions_on_send"] = False
+        plan["knobs"]["reconnect_interval"] = 0.05
     return plan
 
 
 def judge(rr):
     out = []
     drv = rr.plan["driver"]
+    plan = rr.plan
 
     def V(clause, detail, site=None, trigger=None):
         out.append(Violation(PROP, clause, detail, driver=drv, site=site, trigger=trigger))
@@ -68,8 +80,16 @@ def judge(rr):
     sends = [s for s in rr.dev.sends if "value" in s]
     order = []
     by_unit = {}
+    last_gen = {}
+    for s in sends:
+        last_gen[s["unit"]] = s.get("gen", 0)
     for s in sends:
         u = s["unit"]
+        if plan.get("write_fault_at") and s.get("gen", 0) != last_gen[u]:
+            # an attempt cut short by the loss of the gateway: what it got out is a prefix of the unit,
+            # the attempt that counts is the one on the connection that carried it through
+            by_unit.setdefault((u, "earlier"), []).append((s["bits"], s["value"]))
+            continue
         by_unit.setdefault(u, []).append((s["bits"], s["value"]))
         if not order or order[-1] != u:
             order.append(u)
@@ -80,6 +100,13 @@ def judge(rr):
                 u, order))
             break
         seen.add(u)
+    for k_ in [k_ for k_ in by_unit if isinstance(k_, tuple)]:
+        early = by_unit.pop(k_)
+        full = _hasseb_expand(drvsim.op_cmd_specs(rr.ops[k_[0]].op)) if drv == "hasseb" else \
+            cmds.expected_wire(drvsim.op_cmd_specs(rr.ops[k_[0]].op))
+        if early != full[:len(early)]:
+            V("unit-frames-differ", "unit %s: interrupted attempt wrote %s, not a prefix of %s" % (
+                k_[0], _fmt(early), _fmt(full)), site="interrupted-attempt")
     if None in by_unit:
         V("untagged-frame", "frame written outside any caller unit: %s" % (by_unit[None],))
     for u, rec in rr.ops.items():
@@ -175,7 +202,15 @@ def _stuck_site(rr, stuck):
 
 
 def run_plan(plan):
-    rr = drvsim.run(plan)
+    hooks = {}
+    if plan.get("write_fault_at"):
+        def setup(rr_):
+            rr_.dev.write_fault_at = set(plan["write_fault_at"])
+            rr_.dev.return_delay_us = 50000
+        hooks["setup"] = setup
+    rr = drvsim.run(plan, hooks)
+    if plan.get("write_fault_at") and getattr(rr.dev, "losses", None):
+        rr.world.probe("send-retried-after-reconnection")
     res = base_result(rr)
     w = rr.world
     nt = overlap_nontrivial(rr)
